@@ -99,6 +99,8 @@ static char describe_buf[900];
 static char scenario_buf[64];
 static uint64_t n_preempt, n_forced, n_handoff, n_idlejump, n_fair;
 static int n_stalled;
+static uint64_t n_foreign_mgr;
+static int amp_target = -1;
 static uint64_t max_quiet_busy, max_quiet_ns_seen;
 
 /* named probes */
@@ -408,6 +410,7 @@ void finish(int code, const char* verdict, const char* oracle, const char* detai
                                        "lib_wake_mpsc_spin", "lib_wake_mpmc_spin", "lib_poll",         "lib_event_wait", "lib_lock_contention"};
     for (int i = 0; i < 11; i++) sim_probe(sn[i], st[i]);
   }
+  if (n_foreign_mgr) sim_probe("foreign_manager_access", n_foreign_mgr);
   if (compact_ok && code == 0) {
     char* b = sim_internal_alloc(8192);
     size_t k = snprintf(b, 8192, "ok %lu %lu %lu %lu %016lx %016lx %d %d %lu %lu %lu %lu %lu %lu|", run_seed, g_steps, busy_steps, now_ns, thash,
@@ -703,6 +706,16 @@ static void sched_point_inner(int kind) {
     }
     return;
   }
+  if (amp_target >= 0) {
+    const int i = amp_target;
+    amp_target = -1;
+    if ((rng_next(&R_sched) & 1) && T[i].st == ST_RUN) {
+      record_dec(i);
+      n_preempt++;
+      handoff(i);
+      return;
+    }
+  }
   uint32_t p = (boost_mask >> kind) & 1 ? (pinv > 8 ? pinv / 8 : 1) : pinv;
   if (rng_next(&R_sched) % p) return;
   int o = pick_random(1);
@@ -712,9 +725,31 @@ static void sched_point_inner(int kind) {
     handoff(o);
   }
 }
+/* race amplification (scheduling heuristic only, never a verdict): a kernel thread that touches the
+ * per-thread scheduler state of ANOTHER kernel thread is at a spot where the two threads' orders matter;
+ * hand the baton to the owner half of the time. */
+static struct {
+  uint64_t lo, hi;
+} mgr_range[MAXT];
+void sim_register_manager(void* m, size_t size) {
+  if (me >= 0 && me < MAXT && !mgr_range[me].lo) {
+    mgr_range[me].lo = (uint64_t)m;
+    mgr_range[me].hi = (uint64_t)m + size;
+  }
+}
 void sim_access(const void* addr, size_t size, int kind) {
   if (!sim_active || me < 0) return;
   alloc_check(addr, size);
+  amp_target = -1;
+  if (fiber_mode && !sched_replay && !preempt_off) {
+    const uint64_t a = (uint64_t)addr;
+    for (int i = 0; i < nthr; i++)
+      if (i != me && mgr_range[i].lo && a - mgr_range[i].lo < mgr_range[i].hi - mgr_range[i].lo) {
+        n_foreign_mgr++;
+        amp_target = i; /* taken up inside the scheduling point, after the common preamble */
+        break;
+      }
+  }
   sim_sched_point(kind);
 }
 /* cpu_relax() hook: the caller is spinning; somebody else must run */
